@@ -380,3 +380,43 @@ def canon_rows(e: Expr) -> Expr:
         used[new] = n + 1
         out = sym.subst_ivar(out, iv, (new if n == 0 else f"{new}'{n}", 0))
     return out
+
+
+def scaling_check(e: Expr, degree: float = 0.0, trials: int = 16, seed: int = 0, input_fn=None, nrows: int = 4,
+                  lambdas=(3.7, 1e-9, 1e6), tol: float = 1e-7, scaled_inputs=None):
+    """Is e(λ·X) = λ^degree · e(X) on random points, for moderate, tiny and huge λ (all input atoms — or those named in
+    scaled_inputs — multiplied by λ; symbols, sizes, index variables and opaque values kept)?  (True, None) /
+    (False, witness) / (None, reason).  A confirmation by counterexample for what the degree typing cannot prove."""
+    rng = random.Random(seed * 7919 + 101)
+    for k in range(trials):
+        pt = Point(rng, nrows=nrows, input_fn=input_fn)
+        try:
+            v0 = ev(e, pt)
+        except (NotEvaluable, ZeroDivisionError, OverflowError, ValueError) as ex:
+            return None, f"not evaluable: {ex}"
+        for lam in lambdas:
+            pt2 = Point(random.Random(1), nrows=nrows, input_fn=None)
+            pt2.inputs = {key: (val * lam if (scaled_inputs is None or key[0] in scaled_inputs) else val)
+                          for key, val in pt.inputs.items()}
+            pt2.syms, pt2.ivs, pt2.sizes, pt2.opq = dict(pt.syms), dict(pt.ivs), dict(pt.sizes), dict(pt.opq)
+            for attr in ("eval_ranges", "degenerate", "blocks", "opq_fn"):
+                if hasattr(pt, attr):
+                    setattr(pt2, attr, getattr(pt, attr))
+            n_in = len(pt2.inputs)
+            try:
+                v1 = ev(e, pt2)
+            except (NotEvaluable, ZeroDivisionError, OverflowError, ValueError) as ex:
+                return None, f"not evaluable at scale {lam:g}: {ex}"
+            if len(pt2.inputs) != n_in:
+                return None, "the scaled evaluation read inputs the first one did not"
+            want = v0 * (lam ** degree) if degree else v0
+            if isinstance(v0, bool) or isinstance(v1, bool):
+                same = bool(v0) == bool(v1)
+            elif isinstance(v0, float) and isinstance(v1, float) and (math.isnan(v0) or math.isnan(v1)):
+                same = math.isnan(v0) and math.isnan(v1)
+            else:
+                same = _close(float(v1), float(want), tol)
+            if not same:
+                return False, dict(scale=lam, value=v0, scaled_value=v1, expected=want,
+                                   inputs={f"{n_}{list(i_)}": round(x_, 6) for (n_, i_), x_ in sorted(pt.inputs.items())[:8]})
+    return True, None
